@@ -1066,15 +1066,18 @@ func (c *Context) Log10(d, x *Decimal) (Condition, error) {
 	if err != nil {
 		return 0, fmt.Errorf("ln: %w", err)
 	}
-	// The final step runs under the caller's exponent limits and traps.
+	// The final step runs under the caller's exponent limits. Its traps are
+	// applied to all the conditions of the operation, which are returned
+	// together with the error.
 	fc := c.WithPrecision(c.Precision)
 	fc.Rounding = RoundHalfEven
+	fc.Traps = 0
 
 	qr, err := fc.Mul(d, &z, decimalInvLn10.get(c.Precision+2))
-	if err != nil {
-		return 0, err
-	}
 	res |= qr
+	if err != nil {
+		return res, err
+	}
 	return c.goError(res)
 }
 
